@@ -143,11 +143,14 @@ func execAstream(c fw.Case) (string, *fw.OracleFailure) {
 	}
 	_ = cl.SendChunks(chunks, pause)
 	_ = cl.CloseWrite()
+	// the client keeps its read side open until the server has finished with the connection (on a loaded machine the
+	// server may still be working through the buffered bytes 150 ms after the last write: closing then makes one of its
+	// replies fail and ends the connection early — a timing of the harness, not of the code under test)
 	cl.ReadAvailable(150 * time.Millisecond)
-	cl.Close()
 	quit, next, ok := srv.WaitForFrom(mark, func(e sock.Event) bool {
 		return sock.Str(e, "event") == "file-saved" && !sock.Bool(e, "probe")
 	}, 4*time.Second)
+	cl.Close()
 	_ = quit
 	if !srv.Ping(2 * time.Second) {
 		time.Sleep(20 * time.Millisecond)
